@@ -49,6 +49,7 @@ def features(spec, sname):
             'partitions': sorted({len(v['partition']) for v in spec['xvars']}),
             'affine': sorted({v['mask'] is not None for v in spec['xvars']}),
             'mode': spec['mode'], 'pieces': len(spec['pieces']), 'wass': bool(spec.get('wass')),
+            'own_ambiguity': bool(spec.get('amb2')) and any(r.get('amb') for r in spec['rows']),
             'rows': sorted({('E' if r['expect'] else 'R') + r['sense'] for r in spec['rows']}),
             'solver': sname}
 
@@ -75,14 +76,19 @@ def judge(spec, B, sname, ctx):
             tight = abs(ev - osgn * val) <= 1e-4 * (1 + abs(val))
         else:
             ctx.count('adversary_distribution_rejected')
+    adv_b = None
     for k, row in enumerate(spec['rows']):
         sgn = 1 if row['sense'] == 'le' else -1
+        vw = DR.view(spec, row)
+        if vw is not spec and adv_b is None:
+            adv_b = DR.Adversary(vw, rng=np.random.default_rng(spec['spell'] + 6))
+        radv = adv_b if vw is not spec else adv
         if row['expect']:
-            wv, dist = adv.worst_expectation([row['e']], sol, sgn)
+            wv, dist = radv.worst_expectation([row['e']], sol, sgn)
             if wv is None:
                 continue
             ctx.count('distributions_verified')
-            if DR.verify_distribution(spec, dist) is not None:
+            if DR.verify_distribution(vw, dist) is not None:
                 continue
             ev = DR.expectation(spec, [row['e']], sol, dist, sgn)
             if ev - sgn * row['rhs'] > R.tol_for(sname, abs(row['rhs']) + abs(ev)) * 5:
@@ -93,13 +99,13 @@ def judge(spec, B, sname, ctx):
         else:
             for s in range(spec['S']):
                 al, be = DR.value_coeffs(spec, row['e'], sol, s)
-                z, ex = S.maximize(spec['supports'][s], sgn * be, spec['nz'],
-                                   z0=np.array(spec['centers'][s]))
+                z, ex = S.maximize(vw['supports'][s], sgn * be, spec['nz'],
+                                   z0=np.array(vw['centers'][s]))
                 if z is None:
                     continue
                 g = sgn * (al + be @ z) - sgn * row['rhs']
                 if g > R.tol_for(sname, abs(row['rhs']) + np.abs(be).sum() * 3 + abs(al)) \
-                        and S.set_viol(spec['supports'][s], z) <= 1e-6:
+                        and S.set_viol(vw['supports'][s], z) <= 1e-6:
                     viols.append({'what': 'scenario-wise constraint violated at a realisation of '
                                   'the scenario\'s support', 'row': k, 'scenario': s,
                                   'z': z.tolist(), 'excess': float(g)})
